@@ -457,6 +457,15 @@ def _r6(ctx):
             return o.kind == 'return' and isinstance(o.value, Err) and o.value.name == NA
         guarded(ctx, 'R6', 'SWITCH', {'vector': label}, mk, judge,
                 'the result paired with the first case equal to the target, else the default, else #N/A', key='pairing')
+    # equal numbers of different kinds are equal: SWITCH(2, 2.0, ...) selects the first case (constants; == folded on constants)
+    for tv, cv in ((2, 2.0), (2.0, 2), (0, 0.0), (3, 3)):
+        def mk(tv=tv, cv=cv):
+            return [Const(tv), Const(cv + 1), Const('r1'), Const(cv), Const('r2'), Const('d')]
+
+        def judge(o):
+            return o.kind == 'return' and isinstance(o.value, Const) and o.value.value == 'r2'
+        guarded(ctx, 'R6', 'SWITCH', {'target': repr(tv), 'cases': [repr(cv + 1), repr(cv)]}, mk, judge,
+                'the result paired with the case of equal value (%r equals %r whatever the kind of number)' % (tv, cv), key='pairing')
     # falsy default survives
     for dv in (0, False, ''):
         def mk(dv=dv):
